@@ -154,6 +154,7 @@ type gen struct {
 	privParams      map[*ssa.Parameter]bool // list parameters the contract declares private (and the body treats so)
 	privViolations  []string
 	privLists       map[*ssa.Call]bool      // lists made by list.New() that never leave this function's hands
+	capturedType    map[string]types.Type   // what each captured variable (by its reference term) holds
 	retTag          string                  // appended to the names of the obligations of the return being executed
 	counted         map[string]bool         // call names the contract counts with calls(NAME)
 	resultNamed     map[string]types.Type   // call names whose latest (first) result the contract names with resultOf(NAME)
@@ -408,6 +409,17 @@ func (g *gen) newEpoch(st *state, keep0 func(name, r string) string, allocates b
 			}
 			var ne []string
 			for _, c := range caps {
+				// a captured variable lives in the cell heap of its type (in the field heaps of its type when it
+				// is a struct): whoever runs the closure can write it there and nowhere else
+				if ty := g.capturedType[c]; ty != nil {
+					if _, isStruct := ty.Underlying().(*types.Struct); isStruct {
+						if !strings.HasPrefix(name, "H."+typeKey(ty)+".") {
+							continue
+						}
+					} else if name != cellHeap(ty) {
+						continue
+					}
+				}
 				ne = append(ne, sNot(sEq(r, c)))
 			}
 			switch k {
